@@ -6,7 +6,9 @@ is read only by the batch driver to stop *submitting* work and to report through
 import faulthandler
 import hashlib
 import os
+import pickle
 import random
+import select
 import signal
 import sys
 import time
@@ -47,39 +49,130 @@ def _alarm(signum, frame):
 
 
 def execute(profile, config, source, keep_ops=True, event_sink=None):
-    """Run one history.  `source(world, step)` yields the next op record or None."""
+    """Run one history.  `source(world, step)` yields the next op record or None.
+
+    A record {"op": "new_run", "config": {...}} closes the current world and opens a fresh one *in the same
+    process*: replay files use it to reproduce a violation that needs state the library keeps at module level
+    across otherwise unrelated histories (see _chunk_body)."""
     res = RunResult()
     res.config = config
     ops = []
     log = hashlib.sha256()
-    world = profile.new_world(config)
     viol = None
     step = 0
-    try:
-        with warnings.catch_warnings():
-            warnings.simplefilter("ignore")
-            with profile.run_context(config):
-                cap = int(config.get("max_steps", 64))
-                while step < cap:
-                    op = source(world, step)
-                    if op is None:
-                        break
-                    ops.append(op)
-                    ev, viol = profile.apply(world, op, step)
-                    line = codec.dumps(op) + "|" + ev + "|" + ("V" if viol else "-")
-                    log.update(line.encode())
-                    if event_sink is not None:
-                        event_sink(step, op, ev, viol)
-                    step += 1
-                    if viol:
-                        break
-    finally:
-        stats = profile.close_world(world)
+    stats = None
+    cap = int(config.get("max_steps", 64))
+    cur_cfg = dict(config)
+    pending = None
+    done = False
+    from .profile import agg_merge
+    with warnings.catch_warnings():
+        warnings.simplefilter("ignore")
+        while not done:
+            world = profile.new_world(cur_cfg)
+            try:
+                with profile.run_context(cur_cfg):
+                    while step < cap:
+                        op = pending if pending is not None else source(world, step)
+                        pending = None
+                        if op is None:
+                            done = True
+                            break
+                        if op.get("op") == "new_run":
+                            ops.append(op)
+                            step += 1
+                            cur_cfg = dict(config, **op.get("config", {}))
+                            break
+                        ops.append(op)
+                        ev, viol = profile.apply(world, op, step)
+                        line = codec.dumps(op) + "|" + ev + "|" + ("V" if viol else "-")
+                        log.update(line.encode())
+                        if event_sink is not None:
+                            event_sink(step, op, ev, viol)
+                        step += 1
+                        if viol:
+                            done = True
+                            break
+                    else:
+                        done = True
+            finally:
+                st = profile.close_world(world)
+                if stats is None:
+                    stats = st
+                else:
+                    agg_merge(stats, st)
     res.steps = step
     res.ops = ops if (keep_ops or viol) else None
     res.violation = viol
     res.log = log.hexdigest()
     res.stats = stats
+    return res
+
+
+def isolated(fn, *args, **kw):
+    """Run fn(*args) in a forked child and return its (picklable) result.
+
+    Every simulated run and every replay executes in its own child process, so that nothing a run leaves
+    behind in the interpreter (module-level caches of the library, memo tables, open handles) can leak into
+    the next one: one seed is one exactly repeatable execution, and a replay file reproduces without the runs
+    that happened to precede it in a worker.  The child never returns into the caller's stack (os._exit)."""
+    if os.environ.get("VERIF_NO_FORK"):
+        return fn(*args, **kw)
+    r, w = os.pipe()
+    pid = os.fork()
+    if pid == 0:
+        code = 0
+        try:
+            os.close(r)
+            try:
+                payload = pickle.dumps(("ok", fn(*args, **kw)), protocol=pickle.HIGHEST_PROTOCOL)
+            except HarnessAbort as e:
+                payload = pickle.dumps(("abort", str(e), traceback.format_exc()))
+            except BaseException as e:  # noqa
+                payload = pickle.dumps(("error", "%s: %s" % (type(e).__name__, e), traceback.format_exc()))
+            view = memoryview(payload)
+            while len(view):
+                n = os.write(w, view[:1 << 16])
+                view = view[n:]
+        except BaseException:  # noqa
+            code = 1
+        finally:
+            os._exit(code)
+    os.close(w)
+    chunks = []
+    deadline = RUN_WATCHDOG_S * 2
+    try:
+        while True:
+            ready, _, _ = select.select([r], [], [], deadline)
+            if not ready:
+                os.kill(pid, signal.SIGKILL)
+                os.waitpid(pid, 0)
+                raise HarnessAbort("watchdog: child did not finish within %d s" % deadline)
+            b = os.read(r, 1 << 20)
+            if not b:
+                break
+            chunks.append(b)
+    finally:
+        os.close(r)
+    os.waitpid(pid, 0)
+    if not chunks:
+        raise HarnessAbort("child process died without a result")
+    msg = pickle.loads(b"".join(chunks))
+    if msg[0] == "ok":
+        return msg[1]
+    if msg[0] == "abort":
+        raise HarnessAbort(msg[1])
+    raise RuntimeError("in child: %s\n%s" % (msg[1], msg[2]))
+
+
+def _slim(res):
+    """RunResult -> plain tuple (picklable, small)."""
+    return (res.seed, res.index, res.config, res.ops, res.violation, res.log, res.stats, res.steps)
+
+
+def _fat(t):
+    res = RunResult()
+    res.seed, res.index, res.config, res.ops, res.violation, res.log, res.stats, res.steps = t
     return res
 
 
@@ -97,7 +190,20 @@ def generate_and_run(profile, base_seed, tier, index, keep_ops=False):
     return res
 
 
+def _replay_child(profile, config, ops):
+    signal.signal(signal.SIGALRM, _alarm)
+    signal.setitimer(signal.ITIMER_REAL, RUN_WATCHDOG_S)
+    return _slim(_replay(profile, config, ops))
+
+
 def replay(profile, config, ops, event_sink=None):
+    """Replay a recorded history in a forked child (see isolated); with an event sink it runs in-process."""
+    if event_sink is not None:
+        return _replay(profile, config, ops, event_sink)
+    return _fat(isolated(_replay_child, profile, config, ops))
+
+
+def _replay(profile, config, ops, event_sink=None):
     it = iter(list(ops))
 
     def source(world, step):
@@ -114,16 +220,29 @@ _WORKER = {}
 
 
 def _worker_chunk(args):
-    prop, base_seed, tier, indices, n_samples = args
+    """One chunk of runs, executed in a child forked for it (isolated): whatever the library keeps at module
+    level is reset between chunks, and a chunk's outcome is a function of its seeds alone."""
+    try:
+        return isolated(_chunk_body, args)
+    except HarnessAbort as e:
+        prop, base_seed, tier, indices, sample_set = args
+        return {"agg": {}, "violations": [], "samples": [], "runs": 0, "steps": 0, "logs": [],
+                "errors": [{"index": indices[0], "seed": derive_seed(base_seed, prop, tier, indices[0]),
+                            "error": "chunk %d..%d: %s" % (indices[0], indices[-1], e), "trace": ""}]}
+
+
+def _chunk_body(args):
+    prop, base_seed, tier, indices, sample_set = args
     profile = _WORKER["profile"]
     faulthandler.dump_traceback_later(CHUNK_HARD_S, exit=True)
     signal.signal(signal.SIGALRM, _alarm)
     out = {"agg": profile.new_aggregate(), "violations": [], "errors": [], "samples": [], "runs": 0, "steps": 0,
            "logs": []}
+    history = []          # (config, ops) of every run of this chunk so far, in execution order
     for idx in indices:
         signal.setitimer(signal.ITIMER_REAL, RUN_WATCHDOG_S)
         try:
-            res = generate_and_run(profile, base_seed, tier, idx, keep_ops=(idx < n_samples))
+            res = generate_and_run(profile, base_seed, tier, idx, keep_ops=True)
         except HarnessAbort as e:
             out["errors"].append({"index": idx, "seed": derive_seed(base_seed, prop, tier, idx), "error": str(e),
                                   "trace": traceback.format_exc()})
@@ -139,19 +258,42 @@ def _worker_chunk(args):
         out["logs"].append((idx, res.log, res.config.get("run_class", "")))
         profile.aggregate(out["agg"], res)
         if res.violation:
-            out["violations"].append({"index": idx, "seed": res.seed, "config": res.config, "ops": res.ops,
-                                      "violation": res.violation})
-        elif idx < n_samples:
+            v = {"index": idx, "seed": res.seed, "config": res.config, "ops": res.ops, "violation": res.violation}
+            sig = profile.signature(res.violation)
+            alone = None
+            try:
+                alone = replay(profile, res.config, res.ops)       # in a fresh child: nothing left over from earlier runs
+            except HarnessAbort:
+                raise
+            except Exception:  # noqa
+                alone = None
+            if not (alone is not None and alone.violation and profile.signature(alone.violation) == sig):
+                # The history fails only after the runs that preceded it in this process: the library carries
+                # state at module level.  Report the whole sequence as one replayable trace (it is minimised later).
+                # (each earlier run is replayed under its own floating-point regime)
+                combined = []
+                for cfg_j, ops_j in history:
+                    combined.append({"op": "new_run", "config": {"strict_fp": bool(cfg_j.get("strict_fp"))}})
+                    combined.extend(ops_j)
+                combined.append({"op": "new_run", "config": {"strict_fp": bool(res.config.get("strict_fp"))}})
+                combined.extend(res.ops)
+                v["ops"] = combined
+                v["cross_run"] = True
+            out["violations"].append(v)
+        elif idx in sample_set:
             out["samples"].append({"index": idx, "seed": res.seed, "config": res.config, "ops": res.ops})
+        history.append((res.config, res.ops))
     faulthandler.cancel_dump_traceback_later()
     return out
 
 
-def run_batch(profile, base_seed, tier, n_runs, jobs, wall_cap_s, n_samples=3, chunk=20, stop_on_first=False):
+def run_batch(profile, base_seed, tier, n_runs, jobs, wall_cap_s, n_samples=3, chunk=32, stop_on_first=False):
     """Runs indices 0..n_runs-1 (fewer if the wall cap stops submission).  Returns merged results
     in index order so that the verdict does not depend on the number of workers."""
     t0 = time.time()
     _WORKER["profile"] = profile
+    ns = getattr(profile, "n_sweep", 0)
+    n_samples = frozenset([0, ns, ns + 2][:max(n_samples, 0)]) if ns else frozenset(range(n_samples))
     chunks = [list(range(i, min(i + chunk, n_runs))) for i in range(0, n_runs, chunk)]
     results = {}
     submitted = 0
@@ -200,7 +342,7 @@ def run_batch(profile, base_seed, tier, n_runs, jobs, wall_cap_s, n_samples=3, c
             merged[k].extend(r[k])
         merged["runs"] += r["runs"]
         merged["steps"] += r["steps"]
-    merged["samples"] = merged["samples"][:n_samples]
+    merged["samples"] = merged["samples"][:len(n_samples)]
     merged["wall_s"] = time.time() - t0
     h = hashlib.sha256()
     for idx, lg, _rc in sorted(merged["logs"]):
